@@ -1,34 +1,263 @@
 package main
 
 import (
+	_ "embed"
+	"encoding/json"
+	"flag"
 	"fmt"
+	"os"
+	"os/exec"
+	"path/filepath"
+	"sort"
+	"strings"
+	"sync"
 )
 
-// Mutant is a one-edit variant of today's zrnt sources, applied through the go/packages overlay.
+// Mutant is a one-edit variant of today's zrnt sources, applied through the go/packages overlay
+// (no copy of the repository is written anywhere). The corpus measures the checker; it never enters a verdict.
 type Mutant struct {
-	ID     string // unique name
-	Rule   string // rule expected to report
-	File   string // repo-relative path
-	Old    string // text to replace (must occur exactly once unless Nth is set)
-	New    string
-	Nth    int    // 1-based occurrence when Old occurs several times (0 = must be unique)
-	Expect string // substring of the obligation key that must become a violation
+	ID     string `json:"id"`
+	Rule   string `json:"rule"`             // rule expected to report
+	File   string `json:"file"`             // repo-relative path
+	Old    string `json:"old"`              // text to replace
+	New    string `json:"new"`
+	Nth    int    `json:"nth,omitempty"`    // 1-based occurrence when Old occurs several times (0 = must be unique)
+	Expect string `json:"expect"`           // substring of the obligation key that must become a violation
+	Note   string `json:"note,omitempty"`
 }
 
-var mutants []Mutant
+//go:embed mutants.json
+var mutantsJSON []byte
 
-func mut(id, rule, file, old, new, expect string) {
-	mutants = append(mutants, Mutant{ID: id, Rule: rule, File: file, Old: old, New: new, Expect: expect})
+func loadMutants() []Mutant {
+	var ms []Mutant
+	if err := json.Unmarshal(mutantsJSON, &ms); err != nil {
+		panic("mutants.json: " + err.Error())
+	}
+	return ms
 }
-func mutN(id, rule, file, old, new string, nth int, expect string) {
-	mutants = append(mutants, Mutant{ID: id, Rule: rule, File: file, Old: old, New: new, Nth: nth, Expect: expect})
+
+type mutantResult struct {
+	ID      string `json:"id"`
+	Rule    string `json:"rule"`
+	Status  string `json:"status"` // killed | survived | stale | broken
+	Detail  string `json:"detail,omitempty"`
+}
+
+func applyMutant(repo string, m Mutant) (map[string][]byte, string) {
+	abs := filepath.Join(repo, m.File)
+	b, err := os.ReadFile(abs)
+	if err != nil {
+		return nil, "stale: cannot read " + m.File
+	}
+	s := string(b)
+	n := strings.Count(s, m.Old)
+	if n == 0 {
+		return nil, "stale: anchor text no longer present"
+	}
+	if m.Nth == 0 && n != 1 {
+		return nil, fmt.Sprintf("stale: anchor text occurs %d times", n)
+	}
+	idx := -1
+	if m.Nth == 0 {
+		idx = strings.Index(s, m.Old)
+	} else {
+		off := 0
+		for i := 0; i < m.Nth; i++ {
+			j := strings.Index(s[off:], m.Old)
+			if j < 0 {
+				return nil, "stale: fewer occurrences than nth"
+			}
+			idx = off + j
+			off = idx + len(m.Old)
+		}
+	}
+	out := s[:idx] + m.New + s[idx+len(m.Old):]
+	return map[string][]byte{abs: []byte(out)}, ""
+}
+
+func runOneMutant(repo string, m Mutant) mutantResult {
+	res := mutantResult{ID: m.ID, Rule: m.Rule}
+	r := rules[m.Rule]
+	if r == nil {
+		res.Status, res.Detail = "broken", "unknown rule "+m.Rule
+		return res
+	}
+	ov, why := applyMutant(repo, m)
+	if why != "" {
+		res.Status, res.Detail = "stale", why
+		return res
+	}
+	p, err := load(loadOpts{repo: repo, overlay: ov})
+	if err != nil {
+		res.Status, res.Detail = "broken", "mutant does not type-check: "+truncate(err.Error(), 200)
+		return res
+	}
+	rr := runRule(p, r)
+	if rr.Err != "" {
+		// an analyser error is also a (non-silent) outcome, but the corpus wants a named violation
+		res.Status, res.Detail = "survived", "rule errored instead of naming the construct: "+rr.Err
+		return res
+	}
+	var viol []string
+	for _, o := range rr.Obligs {
+		if o.Status == Violation {
+			viol = append(viol, o.Key)
+			if strings.Contains(o.Key, m.Expect) {
+				res.Status = "killed"
+				res.Detail = o.Key + " @ " + o.Pos
+				return res
+			}
+		}
+	}
+	res.Status = "survived"
+	if len(viol) > 0 {
+		res.Detail = "other violations: " + strings.Join(viol, ", ")
+	}
+	return res
 }
 
 func cmdMutants(args []string) int {
-	fmt.Println("mutant corpus: not built yet")
+	fs := flag.NewFlagSet("mutants", flag.ExitOnError)
+	rs := fs.String("rules", "", "only mutants of these rules (comma separated)")
+	ids := fs.String("ids", "", "only these mutant ids")
+	repo := fs.String("repo", "/repo", "")
+	j := fs.Int("j", 12, "parallel workers")
+	worker := fs.Bool("worker", false, "run the given ids in this process and print JSON lines")
+	fs.Parse(args)
+	ms := loadMutants()
+	want := map[string]bool{}
+	for _, r := range strings.Split(*rs, ",") {
+		if r != "" {
+			want[r] = true
+		}
+	}
+	wantID := map[string]bool{}
+	for _, r := range strings.Split(*ids, ",") {
+		if r != "" {
+			wantID[r] = true
+		}
+	}
+	var sel []Mutant
+	for _, m := range ms {
+		if len(want) > 0 && !want[m.Rule] {
+			continue
+		}
+		if len(wantID) > 0 && !wantID[m.ID] {
+			continue
+		}
+		sel = append(sel, m)
+	}
+	if *worker {
+		enc := json.NewEncoder(os.Stdout)
+		for _, m := range sel {
+			enc.Encode(runOneMutant(*repo, m))
+		}
+		return 0
+	}
+	results := runMutantsParallel(*repo, sel, *j)
+	cnt := map[string]int{}
+	for _, r := range results {
+		cnt[r.Status]++
+		if r.Status != "killed" {
+			fmt.Printf("%-9s %-40s %-18s %s\n", r.Status, r.ID, r.Rule, r.Detail)
+		}
+	}
+	fmt.Printf("mutants: total=%d killed=%d survived=%d stale=%d broken=%d\n", len(results), cnt["killed"], cnt["survived"], cnt["stale"], cnt["broken"])
+	if cnt["survived"]+cnt["broken"]+cnt["stale"] > 0 {
+		return 1
+	}
 	return 0
 }
 
+// runMutantsParallel runs mutants in sub-processes (a few per process: many program loads in one process exhaust memory).
+func runMutantsParallel(repo string, sel []Mutant, workers int) []mutantResult {
+	self, _ := os.Executable()
+	const perProc = 4
+	var chunks [][]Mutant
+	for i := 0; i < len(sel); i += perProc {
+		e := i + perProc
+		if e > len(sel) {
+			e = len(sel)
+		}
+		chunks = append(chunks, sel[i:e])
+	}
+	var mu sync.Mutex
+	var results []mutantResult
+	sem := make(chan struct{}, workers)
+	var wg sync.WaitGroup
+	for _, ch := range chunks {
+		wg.Add(1)
+		sem <- struct{}{}
+		go func(ch []Mutant) {
+			defer wg.Done()
+			defer func() { <-sem }()
+			var ids []string
+			for _, m := range ch {
+				ids = append(ids, m.ID)
+			}
+			cmd := exec.Command(self, "mutants", "-worker", "-repo", repo, "-ids", strings.Join(ids, ","))
+			out, err := cmd.Output()
+			got := map[string]bool{}
+			for _, line := range strings.Split(string(out), "\n") {
+				if strings.TrimSpace(line) == "" {
+					continue
+				}
+				var r mutantResult
+				if json.Unmarshal([]byte(line), &r) == nil {
+					mu.Lock()
+					results = append(results, r)
+					mu.Unlock()
+					got[r.ID] = true
+				}
+			}
+			for _, m := range ch {
+				if !got[m.ID] {
+					mu.Lock()
+					results = append(results, mutantResult{ID: m.ID, Rule: m.Rule, Status: "broken", Detail: fmt.Sprintf("worker failed: %v", err)})
+					mu.Unlock()
+				}
+			}
+		}(ch)
+	}
+	wg.Wait()
+	sort.Slice(results, func(i, j int) bool { return results[i].ID < results[j].ID })
+	return results
+}
+
+// runMutantsForRules is used by the thorough tier: the corpus restricted to the property's rules.
 func runMutantsForRules(repo string, rs []string) map[string]any {
-	return nil
+	want := map[string]bool{}
+	for _, r := range rs {
+		if i := strings.Index(r, "@"); i >= 0 {
+			r = r[:i]
+		}
+		want[r] = true
+	}
+	var sel []Mutant
+	for _, m := range loadMutants() {
+		if want[m.Rule] {
+			sel = append(sel, m)
+		}
+	}
+	results := runMutantsParallel(repo, sel, 12)
+	cnt := map[string]int{}
+	var notKilled []mutantResult
+	for _, r := range results {
+		cnt[r.Status]++
+		if r.Status != "killed" {
+			notKilled = append(notKilled, r)
+		}
+	}
+	var sample []mutantResult
+	for i, r := range results {
+		if i%7 == 0 && len(sample) < 8 {
+			sample = append(sample, r)
+		}
+	}
+	return map[string]any{
+		"what": "one-edit variants of today's zrnt sources applied through the go/packages overlay (nothing is executed); each must still type-check and must turn the expected obligation into a violation naming that construct. Measures the checker only: stale/survived never change the verdict.",
+		"mutants_total": len(results), "killed": cnt["killed"], "survived": cnt["survived"], "stale": cnt["stale"], "broken": cnt["broken"],
+		"not_killed": notKilled, "samples": sample,
+	}
 }
